@@ -36,6 +36,9 @@ typedef struct {
 
 	size_t padding;
 	bool last_sparse;
+
+	/* the input is read through a decompressor (tar_open_stream) */
+	bool compressed;
 } tar_iterator_t;
 
 typedef struct {
@@ -168,6 +171,28 @@ static void strm_destroy(sqfs_object_t *obj)
 
 /*****************************************************************************/
 
+/*
+  The archive ends at the end-of-archive marker, but a compressed stream
+  ends later: what is left of it (padding of the archive, the check sum and
+  length fields of the compressed stream itself) has not been looked at by
+  the decompressor yet. Read on to the end of the stream, so that damaged
+  or truncated compressed input is reported instead of being accepted.
+ */
+static int drain_compressed_stream(sqfs_istream_t *strm)
+{
+	const sqfs_u8 *ptr;
+	size_t size;
+	int ret;
+
+	for (;;) {
+		ret = strm->get_buffered_data(strm, &ptr, &size, 1);
+		if (ret != 0)
+			return ret < 0 ? ret : 0;
+
+		strm->advance_buffer(strm, size);
+	}
+}
+
 static int it_next(sqfs_dir_iterator_t *it, sqfs_dir_entry_t **out)
 {
 	tar_iterator_t *tar = (tar_iterator_t *)it;
@@ -240,6 +265,12 @@ retry:
 
 	return 0;
 fail:
+	if (ret > 0 && tar->compressed) {
+		ret = drain_compressed_stream(tar->stream);
+		if (ret == 0)
+			ret = 1;
+	}
+
 	tar->state = ret < 0 ? ret : 1;
 	return tar->state;
 }
@@ -414,6 +445,7 @@ sqfs_dir_iterator_t *tar_open_stream(sqfs_istream_t *strm,
 		return NULL;
 	}
 
+	tar->compressed = true;
 	return it;
 out_strm:
 	tar->stream = sqfs_grab(strm);
